@@ -311,7 +311,9 @@ class Session:
             implicit, external = step[1], step[2]
             what = f"resolve_aliases(implicit={implicit}, external={external})"
             mods0 = sorted(coll.members)
+            objs0 = dict(coll.members)  # identity of the loaded top-level modules
             unresolved1, it1 = call("total", loader.resolve_aliases, implicit=implicit, external=external, what=what)
+            objs1 = dict(coll.members)
             self.classes[f"step:resolve:implicit={implicit}:external={external}"] += 1
             fails = self.check_all_or_nothing(what)
             snap1, mods1 = self.snapshot()
@@ -361,7 +363,18 @@ class Session:
             note = (f"; wildcard imports expanded only by the second call: {late}" if late else "") + (
                 f"; placeholder copies wrapped again by the second call: {leaked[:3]}" if leaked and not late else ""
             )
-            if unresolved1 != unresolved2:
+            # resolve_aliases loads packages that are missing; it never loads a package that is already in the collection
+            # again (that would discard the tree every resolved alias points into): same module objects before / after
+            # the first call and after the second one
+            objs2 = dict(coll.members)
+            reloaded = sorted(n for n, m in objs0.items() if objs1.get(n) is not m) or sorted(n for n, m in objs1.items() if objs2.get(n) is not m)
+            if reloaded:
+                fails.append(
+                    Fail("fixpoint", "loaded-module-replaced",
+                         f"{what} replaced the already loaded top-level module(s) {reloaded} by newly loaded ones "
+                         f"({'first' if any(objs1.get(n) is not m for n, m in objs0.items()) else 'second'} call)", detail)
+                )
+            elif unresolved1 != unresolved2:
                 fails.append(
                     Fail("fixpoint", "unresolved-set-differs" + suffix,
                          f"{what}: first call left {sorted(unresolved1)}, an immediate second call left {sorted(unresolved2)}" + note, detail)
